@@ -1,4 +1,5 @@
 import Pi2.MatchThm
+import Pi2.MatchPartial
 /-!
 # C13 — matching is sound and complete
 
@@ -34,6 +35,23 @@ theorem match_complete (n : Nat) (p i : NPat) (s : Subst) (θ : VId → Option P
     ∃ s', r = some s' ∧ (∀ k v, Py.lookup s' k = some v → θ k = some v.expand) :=
   matchF_complete n p i s θ r hp hi hs hsf hθ hinst hseed h
 
+/-- **completeness for partial instantiations** (`pattern.instantiate(θ)` with a θ that leaves some metavariable ids
+alone): matching still never answers "no match", provided every id left alone has one constraint record in the pattern;
+the answer agrees with θ extended by "an id left alone is bound to its own record" -/
+theorem match_complete_partial (n : Nat) (p i : NPat) (s : Subst) (θ : VId → Option Pat) (r : Option Subst)
+    (hp : p.Shape = true) (hi : i.Shape = true) (hs : ShapeMap s = true) (hsf : p.expand.SubstFree = true)
+    (hc : Py.Consistent θ (Py.mvRecs p.expand)) (hinst : i.expand = Py.inst θ p.expand)
+    (hseed : ∀ k v, Py.lookup s k = some v → θ k = some v.expand) (h : matchF n p i s = some r) :
+    ∃ s', r = some s' ∧ (∀ k v, Py.lookup s' k = some v → Py.extend θ (Py.mvRecs p.expand) k = some v.expand) :=
+  matchF_complete_partial n p i s θ r hp hi hs hsf hc hinst hseed h
+
+/-- the proviso is needed — the open finding KF-C13-two-lists as a theorem: a pattern that uses id 0 under two constraint
+lists, matched against itself (the instantiation by the empty substitution), is answered "no match" -/
+theorem match_incomplete_two_lists :
+    let p : NPat := .imp (.mv 0 [] [] [] [] []) (.mv 0 [0] [] [] [] [])
+    p.expand.SubstFree = true ∧ p.expand = Py.inst (fun _ => none) p.expand ∧ matchF 10 p p [] = some none := by
+  refine ⟨by rfl, by rfl, by rfl⟩
+
 /-- lists of equations -/
 theorem matchList_sound (n : Nat) (eqs : List (NPat × NPat)) (s s' : Subst)
     (hsh : ∀ pi ∈ eqs, pi.1.Shape = true ∧ pi.2.Shape = true) (hs : ShapeMap s = true)
@@ -52,6 +70,12 @@ theorem head_transparent (n : Nat) (p q : NPat) (hp : p.Shape = true) (h : headF
 
 /-! Non-vacuity: a ground equation — the only solution is the empty substitution (the F5 case) -/
 example : matchF 10 (.evar 0) (.evar 0) [] = some (some []) := by rfl
+/-- the hypotheses of `match_complete_partial` are satisfiable with a θ that leaves an id alone -/
+example : Py.Consistent (fun k => if k = 1 then some (.evar 3) else none)
+    (Py.mvRecs (NPat.imp (.mv 0 [0] [] [] [] []) (.imp (.mv 1 [] [] [] [] []) (.mv 0 [0] [] [] [] []))).expand) := by
+  intro m1 h1 m2 h2 k e1 e2 hθ
+  simp [NPat.expand, Py.mvRecs] at h1 h2
+  rcases h1 with rfl | rfl | rfl <;> rcases h2 with rfl | rfl | rfl <;> simp_all [Py.mvId]
 example : matchF 10 (.imp (.mv 0 [] [] [] [] []) (.mv 0 [] [] [] [] [])) (.imp (.evar 1) (.evar 1)) [] = some (some [(0, .evar 1)]) := by rfl
 example : matchF 10 (.imp (.mv 0 [] [] [] [] []) (.mv 0 [] [] [] [] [])) (.imp (.evar 1) (.evar 2)) [] = some none := by rfl
 
